@@ -89,6 +89,35 @@ def extra_setup(chk):
     S.cleanup(chk)
 
 
+def extra_stream(chk):
+    """A Search pending when the connection fails, seen through the calls its caller makes: next() under every adapter chain,
+    a complete read, and Ldap::search(), which reads the stream itself. TLC (MCStream_c04.cfg over spec/SearchStream.tla; C10
+    owns that specification) enumerates the server closing at every position of one- to three-page scripts; where the model
+    ends a call with an error and the code returns anything else, that is a pending operation not told of the failure."""
+    import os
+    import common as C
+    import streamlane
+    out = os.path.join(chk.dir, "mcstream-c04.out")
+    res = C.tlc("MCStream", "MCStream_c04.cfg", out, workers=4, timeout=900, heap="2g")
+    chk.model("MCStream/MCStream_c04.cfg", res)
+    rp = os.path.join(chk.dir, "stream-replay.json")
+    C.harness("stream-run", ["replay", out, rp], timeout=900)
+    os.remove(out)
+    rep = C.load(rp)
+    mine, rest = streamlane._own_view(rep, "c04:")
+    mine["lane"] = "stream-replay (the server closes at every position)"
+    chk.report(mine, "S->I: MCStream_c04 behaviours (connection lost under next / drain / search())")
+    streamlane._note_rest(chk, rest, "S->I MCStream_c04.cfg")
+    cnt = rep["counters"]
+    n_err = cnt.get("impl-error:EndOfStream", 0)
+    chk.extra["stream_connection_loss"] = dict(behaviours=rep["evaluations"], end_of_stream_errors=n_err)
+    if res["ok"] and (n_err == 0 or cnt.get("chain:PR", 0) == 0):
+        chk.tool_error("vacuity: the stream lane observed no EndOfStream error / no paged chain (%s)" % sorted(k for k in cnt if k.startswith("impl-error")))
+    chk.rule.append("stream lane: %d behaviours - the server closes the connection at every position of one- to three-page scripts, "
+                    "under the five adapter chains (next, complete read, finish) and under Ldap::search(); a call the model ends with "
+                    "an error must not return a result or the end of the stream" % rep["evaluations"])
+
+
 def json_keys(d):
     return ", ".join("%s x%d" % kv for kv in sorted(d.items()))
 
@@ -116,6 +145,7 @@ def extra_all(chk):
     extra(chk)
     extra_setup(chk)
     extra_transports(chk)
+    extra_stream(chk)
 
 
 def run(tier):
